@@ -1,4 +1,4 @@
-import Inkayaku.Proofs.SearchRoot
+import Inkayaku.Proofs.SearchDepth1
 import Inkayaku.Model.FenBoard
 /-!
 # C07 — every search is answered by exactly one legal bestmove
@@ -19,8 +19,10 @@ Hypotheses: `BoardLaws` (H1/H2, conclusions of the make/unmake and generator pro
 well-formedness of the position held.  The transposition-table invariant `TTRootFresh` (no entry deep enough to
 answer the root) is PROVED for every iteration of every `go` (`Search.iters_legal`).
 
-Proved: exactly one bestmove; the move is legal and in searchmoves; null move when there is no legal move.
-Not proved (TARGET at the end): the move is never null when a legal move exists (`depth1_completes`).
+Proved: exactly one bestmove; the move is legal and in searchmoves; null move when there is no legal move; the first
+iteration cannot be interrupted (`depth1_not_interrupted`).
+Partial (TARGET at the end): the move is never null when a legal move exists (`depth1_completes`) is reduced to a
+value-range hypothesis on the depth-1 child searches (`depth1_completes_partial`).
 -/
 namespace Inkayaku.C07
 open Inkayaku.Search Inkayaku.Board Inkayaku.WF
@@ -75,28 +77,54 @@ theorem nolegal_null (L : BoardLaws) (s : St) (g : GoParams) (maxIter : Nat) (hw
 #print axioms root_move_from_buffer
 #print axioms nolegal_null
 
+/-- **iteration 1 cannot be interrupted**: `go` zeroes the node counter and clears the stop flag; if the pseudo-legal move
+list of the position is shorter than the poll period (the engine's is 100 000), no node of iteration 1 polls the
+flags, so — whatever waits in the channel, whatever the time limit — iteration 1 ends with the stop flag clear and
+the channel untouched.  (`goPrep s g` is the state in which iteration 1 starts, `rootSearch · 1` its root search.) -/
+theorem depth1_not_interrupted (L : BoardLaws) (s : St) (g : GoParams) (hwf : wf s.board = true)
+    (hpoll : (genPseudo s.board).length < s.pollPeriod) :
+    (rootSearch (goPrep s g) 1).2.stop = false ∧ (rootSearch (goPrep s g) 1).2.pending = s.pending :=
+  Search.depth1_not_interrupted L s g hwf hpoll
+
+/-- `depth1_completes`, reduced to the value-range hypothesis `HorizonBelowWin` (every depth-1 child search of the
+position, started between two polls with an empty table and window `[lossScore, β]`, `β ≤ winScore`, returns a value
+`< winScore`): **a position with a legal move never gets the null move**, under any limit and any interruption -/
+theorem depth1_completes_partial (L : BoardLaws) (s : St) (g : GoParams) (maxIter : Nat) (hwf : wf s.board = true)
+    (hiter : 1 ≤ maxIter) (hpoll : (genPseudo s.board).length < s.pollPeriod)
+    (hlegal : ∃ m, LegalRoot s.board g.searchMoves m)
+    (hval : HorizonBelowWin s.board (fuelFor 1 - 1)) (h0 : s.out = []) :
+    ∃ m ponder infos, (goCmd s g maxIter).out = .bestMove (some m) ponder :: infos := by
+  have hne := Search.depth1_completes_partial L s g maxIter hwf hiter hpoll hlegal hval
+  obtain ⟨news, h, -, -⟩ := goCmd_out s g maxIter
+  rw [h0, List.append_nil] at h
+  cases hb : bestMoveOf (goDeepen s g maxIter).1 with
+  | none => exact absurd hb hne
+  | some m => rw [hb] at h; exact ⟨m, _, news, h⟩
+
+#print axioms depth1_not_interrupted
+#print axioms depth1_completes_partial
+
 /- TARGET (not yet proved): the answer is never the null move when a legal move exists.
 
    theorem depth1_completes (L : BoardLaws) (s : St) (g : GoParams) (maxIter : Nat) (hwf : wf s.board = true)
        (hiter : 1 ≤ maxIter)
        (hpoll : 219 < s.pollPeriod)                                   -- the engine polls every 100 000 nodes
-       (hlegal : ∃ m, LegalRoot s.board g.searchMoves m) :
-       bestMoveOf (goDeepen s g maxIter).1 ≠ none
+       (hlegal : ∃ m, LegalRoot s.board g.searchMoves m) (h0 : s.out = []) :
+       ∃ m ponder infos, (goCmd s g maxIter).out = .bestMove (some m) ponder :: infos
 
-   Reason it holds: `go` zeroes the node counter and clears the stop flag; iteration 1 visits the root and at most 218
-   children (all at the horizon, whose quiescence search counts no negamax nodes), so no node of iteration 1 sees a node
-   counter that is a positive multiple of `pollPeriod`: no poll, hence no stop/quit/time-out, happens before iteration 1
-   has completed, whatever the time limit is (the budget test `tooLittle` only runs after the iteration's result has
-   been stored).  Iteration 1 then returns a move provided one child value beats the initial best value:
-     value-range invariant:  for every legal root move m,  (value of the child search at ply 1) < winScore,
-   i.e. `lossScore < -child.value`.  The children are horizon nodes: static evaluations (|evaluateOngoing| ≤ 64·max
-   piece value + 64·6·max table entry ≪ winScore = 2^24; mate scores `winScore - fullmove` with `1 ≤ fullmove`), the
-   repetition value `drawScore ± contempt`, or quiescence values, which are clamped to the window [-winScore, -alpha]
-   and equal `winScore` only if a static evaluation reaches `winScore` or the recursion fuel (200 plies of captures)
-   runs out.
-   Missing: (1) the bound `(genPseudo b).length ≤ 218` for well-formed boards (a chess fact; with the hypothesis
-   `(genPseudo s.board).length < s.pollPeriod` instead of `hpoll` it is not needed); (2) the value-range invariant
-   above, which needs bounds on `evaluate` over well-formed boards and adequacy of the quiescence fuel. -/
+   Proved instead: `depth1_completes_partial`, which has the two extra hypotheses
+   (1) `(genPseudo s.board).length < s.pollPeriod` in place of `219 < s.pollPeriod` — missing is the chess fact
+       `(genPseudo b).length ≤ 218` for well-formed boards;
+   (2) `HorizonBelowWin s.board 200`, the value-range invariant
+         lossScore < -(value of the child search at ply 1)   for every legal root move.
+       The children are horizon nodes: static evaluations (|evaluateOngoing| ≤ 64·max piece value + 64·6·max table
+       entry ≪ winScore = 2^24; mate scores `winScore - fullmove` with `1 ≤ fullmove`), the repetition value
+       `drawScore ± contempt`, or quiescence values, which are clamped to the window `[-winScore, -alpha]` and equal
+       `winScore` only if a static evaluation reaches `winScore` or the recursion fuel (200 plies of captures) runs
+       out.  Missing: bounds on `evaluate` over well-formed boards and adequacy of the quiescence fuel.
+   Everything else — no poll, hence no stop / quit / time-out before iteration 1 has completed; the budget test
+   `tooLittle` only runs after the iteration's result has been stored; later iterations can only replace the result
+   by another completed one — is proved. -/
 
 /-! ## non-vacuity -/
 
@@ -133,5 +161,14 @@ def dnone : St := goCmd Search.initial { depth := some 2, searchMoves := ["e2e5"
 #guard match dnone.out with
   | .bestMove none none :: _ => true
   | _ => false
+
+/-- the hypotheses of `depth1_completes_partial` on the start position: 20 pseudo-legal moves; every depth-1 child
+value is below `winScore` (evaluated for the children the search visits) -/
+def childValuesBelowWin (b : Board) : Bool :=
+  (genLegal b).all fun m =>
+    (negamax 200 { Search.initial with board := make b m, negamaxNodes := 1 } 1 1 Eval.lossScore Gen.winScore false
+      (Zobrist.hash (make b m)) (Zobrist.pawnHash (make b m))).1.value < Gen.winScore
+#guard (genPseudo Search.initial.board).length == 20
+#guard childValuesBelowWin Search.initial.board
 
 end Inkayaku.C07
